@@ -5,6 +5,7 @@
 #include <cstring>
 #include <cmath>
 #include <libxml/parser.h>
+#include <libxml/parserInternals.h>
 #include <libxml/tree.h>
 #include <libxml/xmlerror.h>
 #include <libxml/globals.h>
@@ -55,17 +56,24 @@ struct XmlQuiet
     // Parse with a private context so that no global default is read or written by the harness itself.
     static xmlDocPtr parse(const std::string &s)
     {
-        xmlParserCtxtPtr ctxt = xmlNewParserCtxt();
+        // A private context whose blank handling is set explicitly: libxml2's process-wide defaults (which libCellML is
+        // known to leave modified, see C12) must not influence what the harness itself reads.
+        xmlParserCtxtPtr ctxt = xmlCreateMemoryParserCtxt(s.data(), static_cast<int>(s.size()));
         if (ctxt == nullptr) {
             return nullptr;
         }
-        ctxt->sax->error = nullptr;
-        ctxt->sax->warning = nullptr;
-        ctxt->sax->serror = nullptr;
+        ctxt->keepBlanks = 1;
+        if (ctxt->sax != nullptr) {
+            ctxt->sax->error = nullptr;
+            ctxt->sax->warning = nullptr;
+            ctxt->sax->serror = nullptr;
+            ctxt->sax->ignorableWhitespace = ctxt->sax->characters;
+        }
         ctxt->vctxt.error = nullptr;
         ctxt->vctxt.warning = nullptr;
-        xmlDocPtr doc = xmlCtxtReadMemory(ctxt, s.data(), static_cast<int>(s.size()), "vh.xml", nullptr,
-                                          XML_PARSE_NOERROR | XML_PARSE_NOWARNING | XML_PARSE_NONET);
+        xmlCtxtUseOptions(ctxt, XML_PARSE_NOERROR | XML_PARSE_NOWARNING | XML_PARSE_NONET);
+        xmlParseDocument(ctxt);
+        xmlDocPtr doc = ctxt->myDoc;
         bool ok = ctxt->wellFormed != 0;
         xmlFreeParserCtxt(ctxt);
         if (doc != nullptr && !ok) {
